@@ -302,17 +302,17 @@ SPECS["C05"] = dict(
 
 
 def c04_jobs(tier):
-    q = [dict(harness="sym_glue", pattern=r"^(full|fullshift)/|^sym/n5k2m4/[A-Za-z]+/LargestAlge/maxit0/ic$|^sym/n4k2m3/BothEnds/.*/maxit1/ic$|^full2/n3k1m3/",
+    q = [dict(harness="sym_glue", pattern=r"^(full|fullshift)/n[34]|^sym/n5k2m4/[A-Za-z]+/LargestAlge/maxit0/ic$|^sym/n4k2m3/BothEnds/LargestAlge/maxit1/ic$|^full2/n3k1m3/",
               label="symmetric: full-space exactness, rule = set; a second compute() with another rule returns the new rule's set", deadline=200),
-         dict(harness="gen_glue", pattern=r"^(genfull|genfullshift)/|^gen/n5k2m4/[A-Za-z]+/LargestMagn/maxit0/ic$|^genfull2/n3k1m3/", label="general: full-space exactness, rule = set; second compute() with another rule", deadline=200),
+         dict(harness="gen_glue", pattern=r"^(genfull|genfullshift)/n[34]|^gen/n5k2m4/[A-Za-z]+/LargestMagn/maxit0/ic$|^genfull2/n3k1m3/", label="general: full-space exactness, rule = set; second compute() with another rule", deadline=200),
          dict(harness="c08_qr", pattern=r"^tridiag-exact-shift/n2", label="exact-shift deflation", deadline=100)]
     if tier == "quick":
         return q
     return q + [dict(harness="sym_glue", pattern=r"^sym/n(5k3m4|6k2m5)/(LargestMagn|BothEnds|SmallestAlge)/LargestAlge/maxit[01]/ic$", label="symmetric: larger sizes [budgeted]", deadline=700, budget=True),
                 dict(harness="gen_glue", pattern=r"^gen/n(6k2m5|6k3m5)/(LargestMagn|LargestReal)/LargestMagn/maxit[01]/ic$", label="general: larger sizes [budgeted]", deadline=700, budget=True),
                 dict(harness="c08_qr", pattern=r"^tridiag-exact-shift/n3", label="exact-shift deflation n=3 [budgeted]", deadline=600, budget=True),
-                dict(harness="sym_glue", pattern=r"^full2/", label="symmetric: second compute() with another rule, all full2 cases [budgeted]", deadline=600, budget=True),
-                dict(harness="gen_glue", pattern=r"^genfull2/", label="general: second compute() with another rule, all genfull2 cases [budgeted]", deadline=600, budget=True)]
+                dict(harness="sym_glue", pattern=r"^full2/|^(full|fullshift)/n5|^sym/n4k2m3/BothEnds/SmallestMagn/maxit1/ic$", label="symmetric: second compute() with another rule, all full2 cases; full-space (5,2,5) [budgeted]", deadline=600, budget=True),
+                dict(harness="gen_glue", pattern=r"^genfull2/|^(genfull|genfullshift)/n5", label="general: second compute() with another rule, all genfull2 cases; full-space (5,2,5) [budgeted]", deadline=600, budget=True)]
 
 
 SPECS["C04"] = dict(
@@ -324,7 +324,7 @@ SPECS["C04"] = dict(
                  "the Ritz values of the final decomposition; (4) wanted values are never purged: every restart keeps nev <= k < ncv and applies exactly the ncv-k stored values at positions >= k as "
                  "shifts (pairs as double shifts); (5) an exact-eigenvalue shift deflates the last row of T in the real TridiagQR."),
     functions=GLUE_FUNCS_SYM + GLUE_FUNCS_GEN + ["TridiagQR::compute, matrix_QtHQ (exact shift)"], stubs=GLUE_STUBS, assumptions=GLUE_ASSUME,
-    bounds={"quick": {"full-space": "(3,1,3),(3,2,3),(4,2,4),(4,3,4),(5,2,5) symmetric; (3,1,3),(4,1,4),(4,2,4),(5,2,5) general; all supported rules; plain + real shift",
+    bounds={"quick": {"full-space": "(3,1,3),(3,2,3),(4,2,4),(4,3,4) symmetric; (3,1,3),(4,1,4),(4,2,4) general ((5,2,5) thorough); all supported rules; plain + real shift; second compute() with another rule at (3,1,3)",
                       "selection": "(5,2,4) maxit 0, (4,2,3) BothEnds maxit 1", "exact shift": "n=2"},
             "thorough": {"selection": "up to (6,3,5) maxit<=1", "exact shift": "n<=3"}},
     outside=["that the iteration CONVERGES to those values for a spectrum with gaps (convergence theory)", "generalized modes (decided at operator level under C03), Davidson/LOBPCG/SVD selection", ROUNDING],
@@ -336,14 +336,22 @@ SPECS["C04"] = dict(
 
 
 def c13_jobs(tier):
-    q = [dict(harness="sym_glue", pattern=r"^nevadj/", label="restart-size function (symmetric), all (nev,ncv) with ncv<=8, ncv-nev<=4", deadline=200, sanitize=True),
-         dict(harness="gen_glue", pattern=(r"^gennevadj/k\dm[3-6]/" if tier == "quick" else r"^gennevadj/"), label="restart-size function (general), ncv<=6 (thorough 8), ncv-nev<=4", deadline=(200 if tier == "quick" else 900), sanitize=True),
-         dict(harness="sym_glue", pattern=r"^sym/n(6k1m3|4k2m3)/LargestMagn/LargestAlge/maxit1/ic$|^sym/n6k2m5/LargestMagn/LargestAlge/maxit0/ic$", label="whole runs under ASan/UBSan (symmetric)", deadline=200, sanitize=True),
-         dict(harness="gen_glue", pattern=r"^gen/n5k1m3/LargestImag/LargestMagn/maxit1/ic$|^gen/n6k2m5/LargestMagn/LargestMagn/maxit0/ic$", label="whole runs under ASan/UBSan (general)", deadline=200, sanitize=True)]
+    quick = tier == "quick"
+    q = [dict(harness="sym_glue", pattern=r"^nevadj/", label="restart-size function (symmetric), all (nev,ncv) with ncv<=8, ncv-nev<=4; restart() itself for ncv<=%d" % (4 if quick else 5), deadline=200, sanitize=True,
+              env=({"VERIF_NEVADJ_RESTART_MAX": "4"} if quick else None)),
+         dict(harness="gen_glue", pattern=(r"^gennevadj/k\dm[3-4]/" if quick else r"^gennevadj/"), label="restart-size function (general), ncv<=4 (thorough 8), ncv-nev<=4", deadline=(200 if quick else 900), sanitize=True),
+         dict(harness="sym_glue", pattern=(r"^sym/n3k1m2/LargestMagn/LargestAlge/maxit[12]/ic$|^sym/n4k2m3/LargestMagn/LargestAlge/maxit0/ic$|^sym/n6k2m5/LargestMagn/LargestAlge/maxit0/ic$" if quick else
+                                           r"^sym/n(6k1m3|4k2m3)/LargestMagn/LargestAlge/maxit1/ic$|^sym/n6k2m5/LargestMagn/LargestAlge/maxit0/ic$|^sym/n3k1m2/LargestMagn/LargestAlge/maxit[12]/ic$"),
+              label="whole runs under ASan/UBSan (symmetric)", deadline=(200 if quick else 600), sanitize=True),
+         dict(harness="gen_glue", pattern=(r"^gen/n5k1m3/LargestImag/LargestMagn/maxit[01]/ic$|^gen/n6k2m5/LargestMagn/LargestMagn/maxit0/ic$" if not quick else
+                                           r"^gen/n5k1m3/(LargestImag|LargestMagn)/LargestMagn/maxit0/ic$|^gen/n6k2m5/LargestMagn/LargestMagn/maxit0/ic$"),
+              label="whole runs under ASan/UBSan (general)", deadline=(200 if quick else 600), sanitize=True)]
+    if quick:
+        q.pop()  # general whole runs under sanitizers: thorough tier (the quick tier keeps the symmetric ones and the 414 sanitized instance runs on the real kernels)
     q.append(dict(harness="c07_krylov", pattern=r"^lanczos-step/n3/k2/zero$|^arnoldi-step/n3/k[12]/regular$|^(arnoldi|lanczos)-init/n2/v[01]$", label="definedness (division / sqrt) obligations inside the real Krylov kernels (shared with C07)", deadline=200))
     q.append(dict(harness="c13_audit", pattern=r"^audit/", label="real solvers + real kernels on 11 degenerate concrete operators with an auditing operator (buffers, work bound, finiteness) under ASan/UBSan",
                   deadline=200, sanitize=True))
-    if tier == "quick":
+    if quick:
         return q
     return q + [dict(harness="sym_glue", pattern=r"^sym/n(6k2m5|7k1m6|5k3m4)/LargestMagn/LargestAlge/maxit1/ic$", label="whole runs, larger sizes (symmetric) [budgeted]", deadline=700, sanitize=True, budget=True),
                 dict(harness="gen_glue", pattern=r"^gen/n(6k2m5|6k3m5|7k1m6|7k2m6)/LargestMagn/LargestMagn/maxit1/ic$", label="whole runs, larger sizes (general) [budgeted]", deadline=700, sanitize=True, budget=True)]
@@ -361,8 +369,9 @@ SPECS["C13"] = dict(
                  "the real kernels on 11 degenerate concrete operators (zero, identity, nilpotent, skew, permutation, rank-1, block diagonal, exact ties, ...) x 3 start vectors x ncv in {nev+1, nev+2, n} x maxit in "
                  "{0,1,30} with the auditing operator under ASan/UBSan: buffers, work bound, finite results, info() in {Successful, NotConverging} or a documented exception."),
     functions=GLUE_FUNCS_SYM + GLUE_FUNCS_GEN, stubs=GLUE_STUBS, assumptions=GLUE_ASSUME,
-    bounds={"quick": {"restart-size": "all legal (nev,ncv), ncv<=8, ncv-nev<=4 (restart itself for ncv<=5 / 4)", "whole runs": "(4,2,3),(6,1,3),(5,1,3) maxit 1; (6,2,5),(7,1,6) maxit 0"},
-            "thorough": {"whole runs": "+ (5,3,4),(6,2,5),(6,3,5),(7,1,6),(7,2,6) maxit 1"}},
+    bounds={"quick": {"restart-size": "symmetric: all legal (nev,ncv), ncv<=8, ncv-nev<=4 (restart itself for ncv<=4); general: ncv<=4", "whole runs": "symmetric (3,1,2) maxit 1,2; (4,2,3),(6,2,5) maxit 0 (general whole runs: thorough)",
+                      "instance runs": "11 operators x 3 start vectors x ncv in {3,4,6} x maxit in {0,1,30}"},
+            "thorough": {"restart-size": "restart itself for ncv<=5; general ncv<=8", "whole runs": "+ (4,2,3),(6,1,3),(5,1,3) maxit 1; (5,3,4),(6,2,5),(6,3,5),(7,1,6),(7,2,6) maxit 1 [budgeted]"}},
     outside=["NaN/Inf that arise from rounding or overflow", "sizes beyond the tables", "Ritz states with exact ties separating conjugate partners (see assumptions): state-level counterexamples exist there "
              "(index ncv read in GenEigsBase::restart), not reproduced through the public API"],
     policy=dict(events="violation", allow_cut=False),
